@@ -7,12 +7,22 @@
   dict lookup, `os.path.join(x, "")`), `in` on literal int tuples, `int(np.prod(shape))`, `True`/`False`,
   `x[a:b]`, `numpy.frombuffer(four bytes, ">u4")[0]`; in a third round for quoting and the DMR dimension readers:
   `str.replace`, text `+`, `str.find(p, n)`, `for x in <list value>` (total: a fold over the items, no `break`),
-  `x.append(e)` / `t += (e,)`, `[]` / `()`, XML elements as attribute dicts (`el.get(k)`), dicts str → int (`d[k]`).
+  `x.append(e)` / `t += (e,)`, `[]` / `()`, XML elements as attribute dicts (`el.get(k)`), dicts str → int (`d[k]`);
+  in a fourth round for the hyperslab check, the call test and the sequence projection: tuples of ints-or-slices,
+  `for x, y in zip(a, b)`, `a if c else b`, `isinstance(x, slice)`, regexp match objects as their groups
+  (`m.group(n)`, truth), `sep.join(list)`, `a in b` on text, `x[a:]` with a computed bound, `x[n] = e`,
+  `a, b, c = s.rpartition(sep)`.
   `harness/py2lean.py` translates the
   *source text* of the chosen function bodies into `Stmt` values (pure syntax → syntax); the semantics below is the
   trusted reading of that fragment.  Theorems in Props/ relate the interpreted source to the hand-written model.
 -/
 namespace Pydap.MiniPy
+
+/-- an element of an index tuple: an int or a slice object -/
+inductive Item where
+  | int (i : Int)
+  | slice (start stop step : Option Int)
+deriving DecidableEq, Repr, Inhabited
 
 inductive Val where
   | none
@@ -26,6 +36,11 @@ inductive Val where
   | elem (attrs : List (List Nat × List Nat))            -- an XML element, as far as `.get(key)` goes
   | elems (l : List (List (List Nat × List Nat)))        -- a list of XML elements (`findall`)
   | sidict (d : List (List Nat × Int))       -- a dict str → int (unique keys)
+  -- fourth round
+  | tuple (l : List Item)                    -- a tuple / list of ints and slice objects (an index)
+  | matchObj (groups : List (List Nat))      -- a regexp match object: group 0, group 1, … (all participating)
+  | float (bits : Nat)                       -- a Python float (opaque: only `isinstance` looks at it)
+  | obj (tag : Nat)                          -- some other Python object (opaque: no operation of the fragment applies)
 deriving DecidableEq, Repr, Inhabited
 
 inductive Err where
@@ -75,6 +90,19 @@ inductive Expr where
   | getAttr (e k : Expr)                      -- `e.get(k)` of an XML element: the attribute or None
   | subscr (d k : Expr)                       -- `d[k]` of a dict str → int (KeyError when absent)
   | emptyList                                 -- `[]` / `()`
+  -- fourth round
+  | ifExp (c a b : Expr)                      -- `a if c else b`
+  | isSlice (e : Expr)                        -- `isinstance(e, slice)`
+  | group (e : Expr) (n : Nat)                -- `e.group(n)` of a match object
+  | joinStr (sep e : Expr)                    -- `sep.join(e)` of a list of strings
+  | inStr (a b : Expr)                        -- `a in b` on text (non-empty `a`)
+  | dropE (e a : Expr)                        -- `e[a:]` with a computed non-negative bound
+  | rpartition (e sep : Expr)                 -- `e.rpartition(sep)` as the list of its three parts
+  | isFloat (e : Expr)                        -- `isinstance(e, float)`
+  | isStrInst (e : Expr)                      -- `isinstance(e, str)`
+  | slistc (l : List (List Nat))              -- a list literal of string constants
+  | strRepeat (s n : Expr)                    -- `s * n` / `n * s` for text `s` and an int `n`
+  | fmtArg (e : Expr)                         -- what `"{}".format(e)` substitutes: text as it is, an int in decimal
 deriving Repr, Inhabited
 
 inductive Stmt where
@@ -86,6 +114,11 @@ inductive Stmt where
   | raise (cls : String)
   | forIn (x : String) (e : Expr) (body : Stmt)   -- `for x in e: body` over a list value (no break)
   | append (x : String) (e : Expr)                -- `x.append(e)` / `x += (e,)`
+  -- fourth round
+  | forZip (x y : String) (e1 e2 : Expr) (body : Stmt)   -- `for x, y in zip(e1, e2): body` (no break)
+  | setIdx (x : String) (n : Nat) (e : Expr)      -- `x[n] = e` on a list of strings
+  | unpack3 (a b c : String) (e : Expr)           -- `a, b, c = e` where `e` is a list of three strings
+  | sortByIndex (x : String) (p : Expr)           -- `x.sort(key=p.index)` on lists of strings
 deriving Repr, Inhabited
 
 abbrev Env := List (String × Val)
@@ -109,6 +142,14 @@ def truthy : Val → Bool
   | .elem _ => true            -- (ElementTree's own truth test, "has children", is not modelled; never used)
   | .elems l => !l.isEmpty
   | .sidict d => !d.isEmpty
+  | .tuple l => !l.isEmpty
+  | .matchObj _ => true
+  | .float b => b != 0                       -- (placeholder: the truth of a float is never read by a tied block)
+  | .obj _ => true
+
+def Item.toVal : Item → Val
+  | .int i => .int i
+  | .slice a b c => .slice a b c
 
 def asInt : Val → Except Err Int
   | .int i => .ok i
@@ -221,6 +262,7 @@ def iterItems : Val → Except Err (List Val)
   | .ilist l => .ok (l.map .int)
   | .slist l => .ok (l.map .str)
   | .elems l => .ok (l.map .elem)
+  | .tuple l => .ok (l.map Item.toVal)
   | _ => .error .typeError
 
 /-- `l.append(v)` / `t += (v,)`; lists are homogeneous (ints or strings), the empty list is `ilist []` -/
@@ -237,6 +279,56 @@ def assocStr : List (List Nat × List Nat) → List Nat → Val
 def assocInt : List (List Nat × Int) → List Nat → Except Err Val
   | [], _ => .error .keyError
   | (k, v) :: t, x => if k = x then .ok (.int v) else assocInt t x
+
+/-- `sep.join(l)` -/
+def joinStrs (sep : List Nat) : List (List Nat) → List Nat
+  | [] => []
+  | [a] => a
+  | a :: b :: rest => a ++ sep ++ joinStrs sep (b :: rest)
+
+/-- the position of the last occurrence of the non-empty `pat` in `s`: the text before it and the text after it -/
+def rpartGo (pat : List Nat) : List Nat → Option (List Nat × List Nat)
+  | [] => none
+  | x :: t =>
+    match rpartGo pat t with
+    | some (h, r) => some (x :: h, r)
+    | none => if pat.isPrefixOf (x :: t) then some ([], (x :: t).drop pat.length) else none
+
+/-- `s.rpartition(sep)`: `(head, sep, tail)` at the last occurrence, `("", "", s)` without one -/
+def strRpartition (s sep : List Nat) : Except Err (List (List Nat)) :=
+  if sep.isEmpty then .error .valueError else
+    match rpartGo sep s with
+    | some (h, t) => .ok [h, sep, t]
+    | none => .ok [[], [], s]
+
+/-- position of `x` in `p` (`p.index(x)`) -/
+def indexOf? (p : List (List Nat)) (x : List Nat) : Option Nat :=
+  match p with
+  | [] => none
+  | y :: t => if y = x then some 0 else (indexOf? t x).map (· + 1)
+
+/-- stable insertion of a keyed element: after all elements whose key is not greater -/
+def insertByKey (k : Nat) (x : List Nat) : List (Nat × List Nat) → List (Nat × List Nat)
+  | [] => [(k, x)]
+  | (k', y) :: t => if k < k' then (k, x) :: (k', y) :: t else (k', y) :: insertByKey k x t
+
+/-- `l.sort(key=p.index)`: stable sort by position in `p`; an element that is not in `p` is a ValueError -/
+def sortByIndex (p : List (List Nat)) : List (List Nat) → Except Err (List (Nat × List Nat))
+  | [] => .ok []
+  | x :: t =>
+    match indexOf? p x, sortByIndex p t with
+    | some k, .ok r => .ok (insertByKey k x r)
+    | none, _ => .error .valueError
+    | _, .error e => .error e
+
+/-- decimal digits of a natural number as code points (`fuel` ≥ the number of digits) -/
+def natStrAux : Nat → Nat → List Nat
+  | 0, n => [48 + n % 10]
+  | f + 1, n => if n < 10 then [48 + n] else natStrAux f (n / 10) ++ [48 + n % 10]
+
+/-- `str(i)` of an int -/
+def intStr (i : Int) : List Nat :=
+  if i < 0 then 45 :: natStrAux i.natAbs i.natAbs else natStrAux i.natAbs i.natAbs
 
 def prodInts : List Int → Int
   | [] => 1
@@ -269,11 +361,16 @@ def eval (env : Env) : Expr → Except Err Val
       | .str cs => match cs[n]? with
         | some c => .ok (.str [c])
         | none => .error .indexError
+      | .slist l => match l[n]? with
+        | some s => .ok (.str s)
+        | none => .error .indexError
       | _ => .error .typeError
   | .len e => do
       match (← eval env e) with
       | .ilist l => .ok (.int l.length)
       | .str cs => .ok (.int cs.length)
+      | .tuple l => .ok (.int l.length)
+      | .slist l => .ok (.int l.length)
       | _ => .error .typeError
   | .isNone e => do .ok (.bool (match (← eval env e) with | .none => true | _ => false))
   | .isNotNone e => do .ok (.bool (match (← eval env e) with | .none => false | _ => true))
@@ -397,6 +494,50 @@ def eval (env : Env) : Expr → Except Err Val
       | .sidict tbl, .str key => assocInt tbl key
       | _, _ => .error .unsupported
   | .emptyList => .ok (.ilist [])
+  | .ifExp c a b => do
+      if truthy (← eval env c) then eval env a else eval env b
+  | .isSlice e => do .ok (.bool (match (← eval env e) with | .slice _ _ _ => true | _ => false))
+  | .group e n => do
+      match (← eval env e) with
+      | .matchObj gs => match gs[n]? with
+        | some g => .ok (.str g)
+        | none => .error .indexError
+      | .none => .error (.raised "AttributeError")
+      | _ => .error .unsupported
+  | .joinStr sep e => do
+      match (← eval env sep), (← eval env e) with
+      | .str s, .slist l => .ok (.str (joinStrs s l))
+      | .str _, .ilist [] => .ok (.str [])
+      | _, _ => .error .unsupported
+  | .inStr a b => do
+      match (← eval env a), (← eval env b) with
+      | .str p, .str s => if p.isEmpty then .error .unsupported else .ok (.bool (findGo p 0 s).isSome)
+      | _, _ => .error .unsupported
+  | .dropE e a => do
+      let v ← eval env e
+      let x ← asInt (← eval env a)
+      if 0 ≤ x then
+        match v with
+        | .ilist l => .ok (.ilist (l.drop x.toNat))
+        | .str cs => .ok (.str (cs.drop x.toNat))
+        | _ => .error .typeError
+      else .error .unsupported
+  | .rpartition e sep => do
+      match (← eval env e), (← eval env sep) with
+      | .str s, .str p => .ok (.slist (← strRpartition s p))
+      | _, _ => .error .unsupported
+  | .isFloat e => do .ok (.bool (match (← eval env e) with | .float _ => true | _ => false))
+  | .isStrInst e => do .ok (.bool (match (← eval env e) with | .str _ => true | _ => false))
+  | .slistc l => .ok (match l with | [] => .ilist [] | _ => .slist l)
+  | .strRepeat s n => do
+      match (← eval env s), (← eval env n) with
+      | .str cs, .int k => .ok (.str (List.replicate k.toNat cs).flatten)
+      | _, _ => .error .unsupported
+  | .fmtArg e => do
+      match (← eval env e) with
+      | .str cs => .ok (.str cs)
+      | .int i => .ok (.str (intStr i))
+      | _ => .error .unsupported
 
 def exec (env : Env) : Stmt → Except Err Env
   | .skip => .ok env
@@ -416,6 +557,26 @@ def exec (env : Env) : Stmt → Except Err Env
       let l ← lookup env x
       let v ← eval env e
       .ok (setVar env x (← appendVal l v))
+  | .forZip x y e1 e2 body => do
+      let i1 ← iterItems (← eval env e1)
+      let i2 ← iterItems (← eval env e2)
+      (i1.zip i2).foldlM (fun env vw => exec (setVar (setVar env x vw.1) y vw.2) body) env
+  | .setIdx x n e => do
+      match (← lookup env x), (← eval env e) with
+      | .slist l, .str s => if n < l.length then .ok (setVar env x (.slist (l.set n s))) else .error .indexError
+      | .ilist [], .str _ => .error .indexError
+      | _, _ => .error .unsupported
+  | .unpack3 a b c e => do
+      match (← eval env e) with
+      | .slist [u, v, w] => .ok (setVar (setVar (setVar env a (.str u)) b (.str v)) c (.str w))
+      | _ => .error .unsupported
+  | .sortByIndex x p => do
+      match (← lookup env x), (← eval env p) with
+      | .slist l, .slist pr => do
+          let r ← sortByIndex pr l
+          .ok (setVar env x (.slist (r.map (·.2))))
+      | .ilist [], _ => .ok env
+      | _, _ => .error .unsupported
 
 /-- the value bound to `x` after running `body` from `env` -/
 def runItem (env : Env) (body : Stmt) (x : String) : Except Err Val :=
